@@ -23,9 +23,12 @@
 
    WHAT IS ABSTRACTED
    * the write side: a TcpConnection is the list of pieces queued on it, in order ([client_q],
-     [up_queued]); that flush delivers exactly these bytes in this order under every short-write
-     pattern is C01 (Net/ConnFacts.flush_conservation) and that they are delivered before the
-     connection is torn down is C07.  The harness flushes everything and compares concatenations.
+     [up_queued]) and a flush (event EFlush) hands all of them to the socket; that flush delivers
+     exactly these bytes in this order under every short-write pattern is C01
+     (Net/ConnFacts.flush_conservation); what is still delivered while a connection is being torn
+     down is C07 (here: the client gets everything queued, an upstream something between what it had
+     at the last flush and everything queued).  Only the CURRENT upstream of the plugin is ever
+     flushed or read: a replaced ReverseProxy.upstream keeps its unsent pieces for ever.
    * the bookkeeping response parser of HttpProxyPlugin.read_from_descriptors does not appear: with
      proposed_fixes/C01-guard-response-parse.diff its result cannot influence relaying.
    * user plugins: none (HttpProxyBasePlugin list empty); web-server plugins are either LOCAL
@@ -66,7 +69,11 @@ Record cfg := mkCfg {
    ====================================================================================== *)
 
 (* a TcpServerConnection opened by this client connection; [conns] in connect order is the connect log *)
-Record upconn := mkUp { up_host : bytes; up_port : Z; up_queued : list bytes; up_closed : bool }.
+Record upconn := mkUp {
+  up_host : bytes; up_port : Z;
+  up_queued : list bytes;        (* every piece queued on it (upstream.queue), in order *)
+  up_nsent : nat;                (* how many of them the socket has taken (GHOST: what the peer has received) *)
+  up_closed : bool }.
 
 Inductive pkind := PNone | PProxy | PWeb.
 
@@ -122,7 +129,10 @@ Fixpoint upd_nth {A} (n : nat) (f : A -> A) (l : list A) : list A :=
 
 (* self.upstream.queue(mv) for the connection with index k *)
 Definition up_add (b : bytes) (u : upconn) : upconn :=
-  mkUp (up_host u) (up_port u) (up_queued u ++ [b]) (up_closed u).
+  mkUp (up_host u) (up_port u) (up_queued u ++ [b]) (up_nsent u) (up_closed u).
+(* write_to_descriptors until the buffer is empty *)
+Definition up_flush (u : upconn) : upconn :=
+  mkUp (up_host u) (up_port u) (up_queued u) (length (up_queued u)) (up_closed u).
 Definition up_queue (k : nat) (b : bytes) (s : hstate) : hstate :=
   set_conns (upd_nth k (up_add b) (conns s)) s.
 
@@ -241,7 +251,7 @@ Definition connect_upstream (s : hstate) : hstate * result unit :=
       if negb ((0 <? pt)%Z && (pt <=? 65535)%Z) then (s, Err (HttpProtocolException 4)) else
       match text_ (hx :: ht) with
       | Err e => (s, Err e)
-      | Ok h => (set_upstream (Some (length (conns s))) (set_conns (conns s ++ [mkUp h pt [] false]) s), Ok tt)
+      | Ok h => (set_upstream (Some (length (conns s))) (set_conns (conns s ++ [mkUp h pt [] O false]) s), Ok tt)
       end
   | _, _ => (s, Err (HttpProtocolException 3))
   end.
@@ -359,7 +369,7 @@ Definition reverse_handle_request (c : cfg) (rplugins : list (list (bytes * list
                   | Ok h =>
                       (* initialize_upstream REPLACES self.upstream; connect() *)
                       let k := length (conns s1) in
-                      let s2 := set_upstream (Some k) (set_conns (conns s1 ++ [mkUp h pt [] false]) s1) in
+                      let s2 := set_upstream (Some k) (set_conns (conns s1 ++ [mkUp h pt [] O false]) s1) in
                       if scheme_is u HTTPS_PROTO then (mark_unmodelled s2, Err AssertionError) else
                       let rq' := set_path rq (u_remainder u) in
                       let hv := if rewrite_host c
@@ -498,7 +508,9 @@ Inductive event :=
 | EClient (seg : bytes)          (* the client socket is readable and recv() returns seg *)
 | EClientEof
 | EUp (k : nat) (raw : bytes)    (* the socket of connection k is readable and recv() returns raw *)
-| EUpEof (k : nat).
+| EUpEof (k : nat)
+| EFlush.                        (* writable descriptors are served until nothing is left to write: the client
+                                    buffer and the buffer of the CURRENT upstream (the only one watched) *)
 
 (* get_descriptors: only the CURRENT upstream of the plugin is watched *)
 Definition registered (s : hstate) (k : nat) : bool :=
@@ -520,6 +532,11 @@ Definition step (c : cfg) (s : hstate) (ev : event) : hstate :=
             match raw with [] => close_conn s | _ => client_queue raw s end      (* client.queue(raw) *)
           else s                                                                  (* never selected: stays unread *)
       | EUpEof k => if registered s k then close_conn s else s
+      | EFlush =>
+          match upstream s with
+          | Some k => if registered s k then set_conns (upd_nth k up_flush (conns s)) s else s
+          | None => s
+          end
       end
   | _ => s
   end.
@@ -530,7 +547,8 @@ Definition run (c : cfg) (s : hstate) (evs : list event) : hstate := fold_left (
    observables
    ====================================================================================== *)
 Definition client_stream (s : hstate) : bytes := concat (client_q s).
-Definition up_stream (u : upconn) : bytes := concat (up_queued u).
+Definition up_stream (u : upconn) : bytes := concat (firstn (up_nsent u) (up_queued u)).   (* received by the peer *)
+Definition up_all (u : upconn) : bytes := concat (up_queued u).                              (* received + still buffered *)
 Definition connect_log (s : hstate) : list (bytes * Z) := map (fun u => (up_host u, up_port u)) (conns s).
 Definition status_code (s : hstate) : N :=
   match stat s with Alive => 0 | Closed => 1 | Raised e => 1000 + exn_code e | Unmodelled => 9999 end.
